@@ -8,6 +8,13 @@ HERE = os.path.dirname(os.path.dirname(os.path.abspath(__file__)))
 
 # id -> (technique, level text, level note, design ref)
 CHECKS = {
+    "C15": (
+        "exhaustive enumeration of clips on a 1/16 s lattice over real PCM-16 WAV files (rates, channels, time expansions), rate pairs x lengths for resample, window/hop (whole and fractional samples) for spectrograms, against frames read back with the standard-library wave module",
+        "Real WAV files with integer ramps are written per worker; for the 8/10 Hz files every (start, end) on the 1/16 s lattice from 0 to 1.5 x file length (on/off sample boundaries, zero-length, reaching and starting past EOF), boundary sets for the other rates, x channels {1,2,3} x time expansion {1,2,10,1/2}: "
+        "exact frame count floor(duration x samplerate), frame values from floor(start x samplerate) zero-filled past EOF, frame times, equality with load_recording; for load_recording, load_clip, resample and compute_spectrogram: axes strictly increasing, starting at the source start, within one advertised step of first + i x step, coordinates matching the data length.",
+        "floor() clauses are judged only where the double product is exact or farther than 2^-24 sample from an integer (counted vacuous otherwise). Default spectrogram options only. resample has no length oracle in the property.",
+        "DESIGN.md 4/C15",
+    ),
     "C10": (
         "exhaustive option-product enumeration on real crowsetta objects: import lattice (times/sample indices x samplerate x expansion x flag), full label-cascade option product (10 368 cells x entry points), export kinds x switches, round trip; against a cascade transcribed from the docstrings and Fraction arithmetic",
         "279 717 (quick) / 3 835 546 (thorough) cases: every onset/offset/frequency lattice point x unit x samplerate x time expansion x adjust flag through all five import entry points; the full product of label options "
